@@ -381,7 +381,10 @@ func checkFast(inj inject.Injector, k int, legal [][]reflect.Value, missing, des
 	if o := judge("Invoke(fast invoker)", fc, fg, fv, fe, legal, missing, fr, desc); o.Violation != "" {
 		return o
 	}
-	if (pe == nil) != (fe == nil) || (pe != nil && pe.Error() != fe.Error()) {
+	// both fail or both succeed; judge has already required each error to name
+	// the unresolvable type (the wording around it may mention the function type,
+	// which differs between the twins)
+	if (pe == nil) != (fe == nil) {
 		return evid.Fail("fast-vs-plain-error", "plain twin error %v, fast invoker error %v; %s", pe, fe, desc)
 	}
 	// where the resolution is unique both must have received the very same values
